@@ -386,6 +386,20 @@ pub fn run(run: &mut Run) {
         }
     }
     rec(&mut vec![], nl, depth, &mut bodies);
+    // beyond the depth bound, from a session that watches one key twice (a write to it then
+    // queues four messages): every body of two more commands
+    {
+        let idx = |l: &str| LETTERS.iter().position(|x| *x == l).unwrap();
+        let prefix = vec![idx("use-db t tok"), idx("watch k"), idx("watch k")];
+        for a in 0..nl {
+            for b in 0..nl {
+                let mut v = prefix.clone();
+                v.push(a);
+                v.push(b);
+                bodies.push(v);
+            }
+        }
+    }
     let ninst = 8;
     let instances: Vec<Instance> = (0..ninst)
         .map(|_| {
